@@ -599,6 +599,11 @@ def run(ctx):
                 "<= 1 single-child node; each one without single-child nodes additionally with one tip perturbed by prec-1, prec, "
                 "prec+1 units either way for prec in %s quarter units) x every API of the property x every option combination, "
                 "+ %d seeded random trees with 6-12 tips (quarter-unit lengths, 0-3 perturbed tips, power-of-two precisions); "
+                "perturbed trees and half of the random ones are built at length scale 2^k, k in -7..6, with the precision kept an "
+                "absolute number (ages, gamma(prec)); every unperturbed and random tree is also queried (all statistics, depths, "
+                "lineages, ages) after the history 'encode_bipartitions + calc_node_ages + calc_node_root_distances + "
+                "resolve_node_depths, then prune / move a subtree / reroot_at_edge / lengthen tips / scale_edges / change one edge "
+                "without any update' and judged on the tree projected after the edit; "
                 "distinct_nontrivial = distinct (API, options, tree with lengths) on trees with more than one node / "
                 "distinct (statistic, normalisation, tree) that returned a value / distinct (tree, distance) with a positive lineage count"
                 % ("+".join(tier["cfgs"]), nmodel, nbase, nl, tier["precs"], tier["nrand"]))
